@@ -310,6 +310,47 @@ def rule_fwd_functional(rows, prop):
     return findings, inst, samples
 
 
+def rule_order(rows, prop):
+    """R-ORDER: operand / functor order facts of the functor machinery (tools/order_tables.json)"""
+    facts_tbl = load_table("order_tables.json")["facts"]
+    findings, n, samples = [], 0, []
+    hit = [0] * len(facts_tbl)
+    for r in rows:
+        if "fn" not in r:
+            continue
+        for k, of in enumerate(facts_tbl):
+            if of["fn"] not in r["fn"]:
+                continue
+            if of["fn"] == "nmtools::functional::operator*" and r["fn"] != of["fn"]:
+                continue
+            callees = of["callee"].split("|")
+            for f in r["facts"]:
+                if f["k"] != "call":
+                    continue
+                cal = re.sub(r"<.*$", "", f["a"])
+                if cal not in callees:
+                    continue
+                pc = parse_call(f["b"])
+                if not pc:
+                    continue
+                args = pc[1]
+                def pos(root):
+                    for i, a_ in enumerate(args):
+                        if root in a_:
+                            return i
+                    return None
+                i1, i2 = pos(of["first"]), pos(of["second"])
+                if i1 is None or i2 is None:
+                    continue
+                n += 1; hit[k] += 1
+                if not i1 < i2:
+                    findings.append(finding("R-ORDER", prop, r, f["b"], "%s passes %s before %s: %s" % (cal, of["second"], of["first"], of["reason"]), f.get("line")))
+                elif len(samples) < 3:
+                    samples.append("R-ORDER %s" % f["b"][:100])
+    broken = ["R-ORDER: order fact %d (%s in %s) matched no call site (anchor vanished)" % (k, facts_tbl[k]["callee"], facts_tbl[k]["fn"]) for k in range(len(facts_tbl)) if hit[k] == 0]
+    return findings, n, samples, broken
+
+
 def comp_fwd_functional(prop, tier, comp, work):
     t0 = time.time()
     tu, n = gen_umbrella(["nmtools/array/functional"], work, "umb_fun.cpp")
@@ -318,6 +359,8 @@ def comp_fwd_functional(prop, tier, comp, work):
     if err:
         out["broken"].append(err); return out
     f, inst, samples = rule_fwd_functional(rows, prop)
+    f5, n5, s5, b5 = rule_order(rows, prop)
+    f += f5; inst["R-ORDER"] = n5; samples += s5; out["broken"] += b5
     tot = sum(inst.values())
     out.update(findings=f, instances=inst, evaluations=tot, distinct_nontrivial=tot - len(f), samples=samples, wall_s=round(time.time() - t0, 2))
     return out
